@@ -349,6 +349,17 @@ Record config := mkConfig {
   c_defaults_first : bool              (* set_default_csrf_options is stated before add_view (flattened include order) *)
 }.
 
+(* The require_csrf view option exists at two levels: the view CLASS's __view_defaults__ (pyramid.view.view_defaults)
+   and the add_view call.  config.views.viewdefaults merges them with `defaults.update(kw)`: whatever the call passes --
+   an explicit None included -- replaces the class-level value.  A level: None = not given; Some None = given, but neither
+   True nor False (None, 0, 1, '' ...: csrf_view only tests `is True` / `is not False`). *)
+Definition level := option (option bool).
+Definition explicit_of (cls call : level) : option bool :=
+  match call with
+  | Some v => v
+  | None => match cls with Some v => v | None => None end
+  end.
+
 (* The options utility is read when the view is DERIVED, i.e. when add_view's action runs.  Actions run
    ordered by (order, statement position): the utility is there iff the directive's action sorts first. *)
 Definition defaults_visible (stated_first : bool) : bool :=
@@ -642,6 +653,14 @@ Definition spec_supplied (token header : option text) (r : request) : text :=
 Definition spec_token_ok (s : storage) (token header : option text) (r : request) : bool :=
   text_eqb (spec_supplied token header r) (expected_token s r).
 
+(* documented precedence of the view option: the call's keyword when the call passes one at all, else the class default *)
+Definition spec_explicit (cls call : level) : option bool :=
+  match cls, call with
+  | _, Some v => v
+  | Some v, None => v
+  | None, None => None
+  end.
+
 Definition spec_in_force (c : config) : bool :=
   let o := spec_effective c in
   match c_explicit c with
@@ -704,10 +723,19 @@ Definition get_defaults (v : val) : option defaults :=
 Definition get_storage (v : val) : option storage :=
   match v with VI 0%Z => Some Legacy | VI 1%Z => Some Session | VI 2%Z => Some Cookie | _ => None end.
 
+(* the view option: [] / [b] (one level, as before) or [class level; call level], a level = [] | [[]] | [[b]] *)
+Definition get_explicit (v : val) : option (option bool) :=
+  match v with
+  | VL [VL cls; VL call] =>
+      olet cls := get_opt (get_opt get_bool) (VL cls) in olet call := get_opt (get_opt get_bool) (VL call) in
+      Some (explicit_of cls call)
+  | _ => get_opt get_bool v
+  end.
+
 Definition get_config (v : val) : option config :=
   match v with
   | VL [ex; df; eo; st; se; fi] =>
-      olet ex := get_opt get_bool ex in olet df := get_opt get_defaults df in olet eo := get_bool eo in
+      olet ex := get_explicit ex in olet df := get_opt get_defaults df in olet eo := get_bool eo in
       olet st := get_storage st in olet se := get_texts se in olet fi := get_bool fi in
       Some (mkConfig ex df eo st se fi)
   | _ => None
